@@ -5,7 +5,7 @@ import gen
 import depgen
 from props.C04 import EDIT
 
-TOK = [b"any", b"all", b"gnu", b"linux", b"amd64", b"musl", b"kfreebsd", b"x", b""]
+TOK = [b"any", b"all", b"gnu", b"linux", b"amd64", b"musl", b"kfreebsd", b"x", b"", b"freebsd", b"darwin", b"solaris", b"uclinux", b"bsd", b"hurd"]
 
 
 def run(chk):
@@ -45,7 +45,8 @@ def run(chk):
     # architecture names: exhaustive over 1..4 dash-separated tokens
     names = set()
     for n in range(1, 5):
-        for parts in itertools.product(TOK, repeat=n):
+        # (four-part names over the first nine tokens only: 15^4 would be fifty thousand names)
+        for parts in itertools.product(TOK if n < 4 else TOK[:9], repeat=n):
             names.add(b"-".join(parts))
     names = sorted(names)
     names += [gen.rand_bytes(rng, 10, [b"a", b"-", b"any", b"all", b"gnu", b"linux", b"\xff", b" "]) for _ in range(chk.n(2000, 40000))]
